@@ -65,7 +65,7 @@ def setup():
 # --------------------------------------------------------------------------- harness
 
 class _C(object):
-  __slots__ = ("idx", "con", "sock", "closed", "pending", "joined", "parsed", "m", "armed")
+  __slots__ = ("idx", "con", "sock", "closed", "pending", "joined", "parsed", "m", "armed", "acts")
 
 
 class _H(object):
@@ -85,7 +85,9 @@ class _H(object):
     self.tainted = set()
     self.ps_seq = 0
     self.xid_seq = 0x5000
-    self.actor = None        # connection whose loss/close the current op is about
+    self.once = _Once(out)
+    self.before = []         # (lost, closed) per connection before the current op
+    self.acted = set()       # connections that were lost/closed during the current op
     for n in ("ConnectionUp", "ConnectionDown", "PortStatus"):
       self.w.nexus.addListenerByName(n, self._rec("nexus", n))
 
@@ -114,6 +116,7 @@ class _H(object):
     c.con = self.of_01.Connection(c.sock)
     c.closed = c.pending = c.joined = c.armed = False
     c.parsed = 0
+    c.acts = []
     c.m = self.model.open(DPIDS[d])
     self.cs.append(c)
     self.by_id[id(c.con)] = c
@@ -135,15 +138,18 @@ class _H(object):
     self.model.closed(c.m)
 
   def _after_read(self, c):
+    """socket-level consequences of what the controller just did (no verdicts, no model)"""
     if c.closed:
       return
-    if c.sock.fatal and not c.m.lost:
-      self.model.lost(c.m, down_now=False)
-      c.pending = True
-    if c.sock.shutdowns and not c.pending:
+    if c.sock.fatal or c.sock.shutdowns:
       c.pending = True
     if c.pending:
       c.sock.eof = True
+
+  def _note_loss(self, c):
+    """a send on this socket failed fatally: the controller has observed the loss"""
+    if not c.closed and c.sock.fatal and not c.m.lost:
+      self.model.lost(c.m, down_now=False)
 
   def pump(self, c):
     n = 0
@@ -199,7 +205,7 @@ class _H(object):
     self.xid_seq += 1
     bx = c.m.barrier_xid
     if t == "hello":
-      return sb.hello(0), lambda: m.other(c.m) if False else None
+      return sb.hello(0), None
     if t == "feat":
       ports = [{"no": 1, "hw": b"\x02\x00\x00\x00\x0a\x01", "name": "eth1"},
                {"no": 2, "hw": b"\x02\x00\x00\x00\x0a\x02", "name": "eth2"}]
@@ -262,34 +268,27 @@ class _H(object):
       return
     data, act = self.build(c, msg)
     c.sock.feed(data)
-    # the model sees the message when the controller reads it; with `join` that is at the next pump.
-    c.m._pending_acts = getattr(c.m, "_pending_acts", [])
-    c.m._pending_acts.append(act)
-    if join:
+    # the model sees a message when the controller reads it; with `join` that is at the next pump
+    c.acts.append(act)
+    if join and not (c.armed and not c.sock.fatal):
+      # (with a send failure armed, messages are delivered one by one so that the model knows
+      # which message the failure belongs to)
       c.joined = True
       return
     self.deliver(c)
 
   def deliver(self, c):
-    """read everything queued on c; model actions are applied in message order, each one after the
-    controller has written whatever the previous messages caused (barrier xids are learnt from there)."""
-    acts = getattr(c.m, "_pending_acts", [])
-    c.m._pending_acts = []
-    if len(acts) <= 1:
-      self.pump(c)
-      for a in acts:
-        if a is not None:
-          a()
-      self._follow(c)
-      return
-    # several messages in one recv: apply model actions in order; the barrier xid a later message refers
-    # to was resolved when it was built, i.e. before the earlier ones were read -- that is what a peer
-    # that pipelines its messages does.
+    """read everything queued on c, then tell the model, message by message.  A message that refers to
+    the barrier xid had it resolved when it was built, i.e. before the queued ones were read -- that is
+    what a peer that pipelines its messages can know."""
+    acts = c.acts
+    c.acts = []
     self.pump(c)
     for a in acts:
       if a is not None:
         a()
-    self._follow(c)
+      self._follow(c)
+    self._note_loss(c)
 
   def _follow(self, c):
     """points where the statement is silent: follow what the controller did"""
@@ -310,8 +309,24 @@ def _counts(h, kind, level):
   return n
 
 
+class _Once(object):
+  """records each violation key once per case"""
+  def __init__(self, out):
+    self.out = out
+    self.seen = set()
+
+  def fail(self, clause, msg, **key):
+    k = (clause,) + tuple(sorted(key.items()))
+    if k in self.seen:
+      return
+    self.seen.add(k)
+    self.out.fail(clause, msg, **key)
+
+
 def _check(h, op):
-  out = h.out
+  out = h.once
+  now = [(c.m.lost, c.m.closed) for c in h.cs]
+  h.acted = set(i for i, st_ in enumerate(now) if i >= len(h.before) or st_ != h.before[i])
   # ---- connection-up / connection-down counts
   for level in ("nexus", "con"):
     ups = _counts(h, "ConnectionUp", level)
@@ -358,6 +373,8 @@ def _check(h, op):
           out.fail("port-status-missing", "connection %d: port-status %r arrived after the features reply but no PortStatus event on the %s; delivered %r (after op %r)" % (c.idx, miss, level, delivered, op), level=level)
   # ---- registry
   _check_registry(h, op)
+  h.before = now
+  h.prev_real = _real_registry(h)
 
 
 def _real_registry(h):
@@ -369,7 +386,7 @@ def _real_registry(h):
 
 
 def _check_registry(h, op):
-  out = h.out
+  out = h.once
   exp = h.model.registry()
   real = _real_registry(h)
   prev = h.prev_real
@@ -386,16 +403,18 @@ def _check_registry(h, op):
     if ok:
       continue
     h.tainted.add(d)
-    actor = h.actor
+    acted = h.acted
     if r is None:
       p = prev.get(d)
-      if actor is not None and actor.m.dpid == d and actor.idx != e[0].idx and p is not None and p != actor.idx:
-        stage = "announced" if actor.m.up else "half-handshaken"
-        out.fail("registry", "dpid %#x: closing/losing connection %d (%s) removed the registry entry of live connection %d (op %r)" % (
-            d, actor.idx, stage, p, op), cause="live-connection-unregistered-by-another-connections-disconnect")
-      elif actor is not None and p == actor.idx and actor.idx != e[0].idx:
-        out.fail("registry", "dpid %#x: connection %d went away; connection %d is live and fully handshaken but the registry has no entry (op %r)" % (
-            d, actor.idx, e[0].idx, op), cause="no-fallback-to-older-live-connection")
+      others = sorted(i for i in acted if h.cs[i].m.peer_dpid == d and i != p)
+      if p is not None and p not in acted and others:
+        a = h.cs[others[0]]
+        stage = "announced" if a.m.up else "half-handshaken"
+        out.fail("registry", "dpid %#x: disconnecting/closing connection %d (%s) removed the registry entry of live connection %d (op %r)" % (
+            d, a.idx, stage, p, op), cause="live-connection-unregistered-by-another-connections-disconnect")
+      elif p is not None and p in acted and p != e[0].idx:
+        out.fail("registry", "dpid %#x: connection %d went away; connection %d is live and fully handshaken but the registry has no entry for the dpid (op %r)" % (
+            d, p, e[0].idx, op), cause="no-fallback-to-older-live-connection")
       else:
         out.fail("registry", "dpid %#x: live fully-handshaken connection %d is not in the registry (op %r)" % (d, e[0].idx, op),
                  cause="live-connection-missing")
@@ -453,22 +472,6 @@ def _send_to(h, d, op):
 
 # --------------------------------------------------------------------------- interpreter
 
-def _classify(h, ops):
-  out = h.out
-  nt = False
-  for c in h.cs:
-    if c.m.async_before_up:
-      nt = True
-      out.label("async-inside-handshake")
-    if c.m.up:
-      out.label("announced")
-    elif c.m.got_features:
-      out.label("half-handshaken-at-end")
-    if c.m.ps_mandatory and c.m.up and any(True for _ in c.m.ps_mandatory):
-      pass
-  return nt
-
-
 def run_case(case):
   out = Outcome()
   h = _H(out)
@@ -479,41 +482,34 @@ def run_case(case):
   return out
 
 
-def _overlap_labels(h, opened_at, closed_at, upped):
-  out = h.out
-  nt = False
-  n = len(h.cs)
-  for i in range(n):
-    for j in range(i + 1, n):
-      a, b = h.cs[i], h.cs[j]
-      if a.m.peer_dpid != b.m.peer_dpid:
-        continue
-      # lifetimes [opened, closed) overlap?
-      ca = closed_at.get(i, 10 ** 9)
-      if opened_at[j] < ca:
-        nt = True
-        out.label("same-dpid-overlap")
-        if a.m.up and b.m.up:
-          out.label("same-dpid-overlap-both-announced")
-      else:
-        out.label("same-dpid-reconnect-after-close")
-  return nt
+def _stage(c):
+  return "/announced" if c.m.up else ("/half" if c.m.got_features else "/early")
+
+
+def _settle(h, op):
+  """after anything that ran controller code: notice failed sends / shutdowns, learn xids, judge"""
+  for c in h.cs:
+    h._after_read(c)
+    h._note_loss(c)
+  h._scan_sent()
+  for c in h.cs:
+    if (c.closed or c.m.lost) and c.idx not in h.closed_at:
+      h.closed_at[c.idx] = h.step
+  _check(h, op)
 
 
 def _run(h, ops):
   out = h.out
   h.prev_real = {}
-  opened_at, closed_at = {}, {}
+  h.opened_at, h.closed_at = {}, {}
   early_ps = False
   for step, op in enumerate(ops):
     h.step = step
-    h.actor = None
     o = op[0]
     if o == "open":
       c = h.open(op[1] % 2)
       if c is not None:
-        opened_at[c.idx] = step
-        h._scan_sent()
+        h.opened_at[c.idx] = step
     elif o == "m":
       c = h.get(op[1])
       if c is None:
@@ -523,13 +519,11 @@ def _run(h, ops):
       if msg[0] == "ps" and c.m.got_features and not c.m.up and not c.m.lost:
         early_ps = True
       out.label("msg:" + msg[0] + ("/pre-up" if not c.m.up else "/post-up"))
-      h.actor = c
       h.message(c, msg, join)
     elif o == "lose":
       c = h.get(op[1])
       if c is None:
         continue
-      h.actor = c
       if c.joined:
         h.deliver(c)
       if not c.closed:
@@ -537,67 +531,63 @@ def _run(h, ops):
           c.sock.recv_error = errno.ECONNRESET
         else:
           c.sock.eof = True
-        out.label("loss:" + op[2] + ("/announced" if c.m.up else ("/half" if c.m.got_features else "/early")))
+        out.label("loss:" + op[2] + _stage(c))
         h.poll(c)
     elif o == "cut":
-      # a prefix of a message, then the connection dies
+      # a proper prefix of a message arrives, then the connection dies
       c = h.get(op[1])
       if c is None or c.pending:
         continue
-      h.actor = c
       if c.joined:
         h.deliver(c)
-      if c.closed:
+      if c.closed or c.pending:
         continue
       data, act = h.build(c, op[2])
       n = op[3] % len(data)
       c.sock.feed(data[:n])
       h.pump(c)
       if not c.closed:
-        c.sock.eof = True
-        out.label("loss:cut" + ("/announced" if c.m.up else ("/half" if c.m.got_features else "/early")))
+        if len(op) > 4 and op[4] == "rst":
+          c.sock.recv_error = errno.ECONNRESET
+        else:
+          c.sock.eof = True
+        out.label("loss:cut" + _stage(c))
         h.poll(c)
-    elif o == "bytes":
-      # raw prefix of a pre-built stream (used by the byte-position sweep): ["bytes", c, n] feeds n more bytes
-      c = h.get(op[1])
-      if c is None:
-        continue
-      raise HarnessError("unused")
     elif o == "sendfail":
       c = h.get(op[1])
       if c is None or c.pending:
         continue
+      if c.joined:
+        h.deliver(c)
+        _settle(h, ["sendfail-deliver", c.idx])
+        if c.closed or c.pending:
+          continue
       c.sock.send_script = ["EPIPE"]
       c.armed = True
-      out.label("armed-send-failure")
+      out.label("armed-send-failure" + _stage(c))
     elif o == "disc":
       c = h.get(op[1])
       if c is None:
         continue
-      h.actor = c
       if c.joined:
         h.deliver(c)
       if c.closed:
         continue
-      out.label("loss:disconnect()" + ("/announced" if c.m.up else ("/half" if c.m.got_features else "/early")))
+      out.label("loss:disconnect()" + _stage(c))
       c.con.disconnect()
       h.model.lost(c.m, down_now=True)
-      h._after_read(c)
     elif o == "poll":
       for c in h.cs:
         if not c.closed and c.pending and not c.joined:
-          h.actor = c
           h.poll(c)
-          _note_closed(h, closed_at, step)
-          _check(h, op)
-          h.prev_real = _real_registry(h)
-      h.actor = None
+          _settle(h, op)
     elif o == "send":
       _send_to(h, op[1] % 2, op)
     elif o == "down":
       for c in h.cs:
         if c.joined and not c.closed:
           h.deliver(c)
+          _settle(h, ["down-deliver", c.idx])
       snapshot = h.model.registry()
       bad = set(h.tainted)
       out.label("core-DownEvent")
@@ -607,61 +597,64 @@ def _run(h, ops):
           continue
         if len(acc) > 1:
           # ambiguous 'most recent': follow which one the controller had registered
-          for i in acc:
+          for i in sorted(acc):
             if h.cs[i].con.disconnected:
               h.model.lost(h.cs[i].m, down_now=True)
         else:
-          h.model.lost(pref.m, down_now=True)
+          h.model.lost(pref, down_now=True)
       for c in h.cs:
-        if c.m.dpid in bad and not c.closed:
+        if c.m.dpid in bad and c.m.dpid is not None and not c.closed:
           c.m.unjudged = True
-        h._after_read(c)
     else:
       raise HarnessError("unknown op %r" % (op,))
-    # sockets on which a send failed during this op
-    for c in h.cs:
-      h._after_read(c)
-    h._scan_sent()
-    _note_closed(h, closed_at, step)
-    _check(h, op)
-    h.prev_real = _real_registry(h)
+    _settle(h, op)
   # ---- end of history: deliver what is queued, let the loop close what is dead
+  h.step = len(ops)
   for c in h.cs:
-    h.actor = c
     if c.joined and not c.closed:
       h.deliver(c)
-      _note_closed(h, closed_at, len(ops))
-      _check(h, ["end-deliver", c.idx])
-      h.prev_real = _real_registry(h)
+      _settle(h, ["end-deliver", c.idx])
   for c in h.cs:
     if not c.closed and c.pending:
-      h.actor = c
       h.poll(c)
-      _note_closed(h, closed_at, len(ops))
-      _check(h, ["end-poll", c.idx])
-      h.prev_real = _real_registry(h)
+      _settle(h, ["end-poll", c.idx])
   # ---- classification
-  nt = _classify(h, ops)
+  nt = False
+  for c in h.cs:
+    if c.m.async_before_up:
+      nt = True
+      out.label("async-inside-handshake")
+    if c.m.up:
+      out.label("announced")
+    elif c.m.got_features:
+      out.label("half-handshaken-at-end")
   if early_ps:
     out.label("port-status-between-features-and-up")
-  if _overlap_labels(h, opened_at, closed_at, None):
-    nt = True
+  n = len(h.cs)
+  for i in range(n):
+    for j in range(i + 1, n):
+      a, b = h.cs[i], h.cs[j]
+      if a.m.peer_dpid != b.m.peer_dpid or not (a.m.got_features and b.m.got_features):
+        continue
+      if h.opened_at[j] < h.closed_at.get(i, 10 ** 9):
+        nt = True
+        out.label("same-dpid-overlap")
+        if a.m.up and b.m.up:
+          out.label("same-dpid-overlap-both-announced")
+      else:
+        out.label("same-dpid-reconnect-after-close")
   out.nontrivial = nt
   out.label("connections:%d" % len(h.cs))
   out.label("announced:%d" % sum(1 for c in h.cs if c.m.up))
+  if h.tainted:
+    out.label("registry-judging-suspended-for-a-dpid")
   if h.w.deferred.calls:
     raise HarnessError("deferred sender was used")
 
 
-def _note_closed(h, closed_at, step):
-  for c in h.cs:
-    if (c.closed or c.m.lost) and c.idx not in closed_at:
-      closed_at[c.idx] = step
-
-
 # --------------------------------------------------------------------------- enumerations
 
-_ASYNC = [["ps", 2, 0], ["echo"], ["pin"], ["err", 1, 1], ["stats", 0]]
+_ASYNC = [["ps", 2, 0], ["echo"], ["pin"], ["err", 1, 1], ["err", 2, 0], ["stats", 0]]
 _BARRIER = [["bar", "right"], ["berr"], ["bar", "wrong"]]
 
 
@@ -810,7 +803,7 @@ def enum_cut(tier):
           continue
         ops = list(pre) + [["m", 1, m] for m in seq[:upto]]
         if n:
-          ops.append(["cut", 1, seq[upto], n] if how == "eof" else ["cut", 1, seq[upto], n])
+          ops.append(["cut", 1, seq[upto], n, how])
         else:
           ops.append(["lose", 1, how])
         ops += [["send", 0], ["m", 0, ["ps", 2, 2]], ["lose", 0, how], ["send", 0]]
@@ -835,8 +828,6 @@ def _script(draw, i, tier):
   hs = [["hello"], ["feat"], ["desc"], draw(_msg_barrier)]
   if draw(st.integers(0, 9)) >= 6:
     hs = list(draw(st.permutations(hs)))
-  if draw(st.integers(0, 19)) == 0:
-    hs.append(draw(_msg_barrier))        # a switch that answers the barrier twice
   n_async = draw(st.integers(0, 3))
   for _ in range(n_async):
     pos = draw(st.integers(0, len(hs)))
